@@ -51,14 +51,14 @@ func c14Scenario(c c14Cfg) *mc.Scenario {
 			}
 		}
 		type attempt struct {
-			cand    int
-			verb    string
-			err     error
-			call    int
-			ret     int
-			thread  string
-			obs     []byte // the record this attempt observed (nil: none)
-			hasObs  bool
+			cand   int
+			verb   string
+			err    error
+			call   int
+			ret    int
+			thread string
+			obs    []byte // the record this attempt observed (nil: none)
+			hasObs bool
 		}
 		var attempts []attempt
 		observed := map[string][]byte{} // thread -> the record bytes its last acquire-or-renew step observed
@@ -188,9 +188,9 @@ func c14Configs(tier string) []c14Cfg {
 
 func init() {
 	mc.Register(&mc.Property{
-		ID:    "C14",
-		Level: "model_checking",
-		Rule: "every schedule (engine-call granularity; unbounded preemptions for 2 candidates x 1 round, preemption-bounded otherwise; happens-before state cache) of 2-3 candidates each running the acquire-or-renew step of client-go's elector (Get, then Create if absent else Update) on the real resource lock over one store, from an absent record and from a record held by a third identity, on memkv, badger and tikv-mock; oracle on the engine trace: at most one create takes effect, every update that takes effect was conditioned on exactly the bytes stored immediately before it, the record is never written unconditionally, and a candidate believes it won iff its write took effect",
+		ID:     "C14",
+		Level:  "model_checking",
+		Rule:   "every schedule (engine-call granularity; unbounded preemptions for 2 candidates x 1 round, preemption-bounded otherwise; happens-before state cache) of 2-3 candidates each running the acquire-or-renew step of client-go's elector (Get, then Create if absent else Update) on the real resource lock over one store, from an absent record and from a record held by a third identity, on memkv, badger and tikv-mock; oracle on the engine trace: at most one create takes effect, every update that takes effect was conditioned on exactly the bytes stored immediately before it, the record is never written unconditionally, and a candidate believes it won iff its write took effect",
 		Assume: []string{"an engine call is one atomic step (scheduling point before each)", "lease-expiry timing of client-go's elector is not modelled: every candidate attempts to take the lock in every round"},
 		Scenarios: func(tier string) []*mc.Scenario {
 			var out []*mc.Scenario
